@@ -22,6 +22,9 @@ ALPH = [" ", "\t", "\n", "\xa0", "a", "b"]
 # text whose CHARACTERS are markup characters (escaped in the source document): it stays text
 MARKUPISH = [' encoding="UTF-8"', "version='1.0'", "<?xml?>", "AT&T", "1<2", "x>y", "&amp;", "<b>x</b>", "&lt;i&gt;", "&#38;", "<!--c-->", "<?pi?>", "&", "<", "\"q'"]
 ODD = ["\u00b5g", "km\u00b2", "\ufb01eld", "\uff1cb\uff1e", "\uff06", "\uff02", "e\u0301", "\u212b", "\u2460", "\uff46", "\u0130", "\u00df", "\u01c6", "\u2026", "\u2122", "\u1e9b\u0323"]
+# legal XML characters that some line-oriented string functions (str.splitlines) treat as line ends: to XML they are ordinary
+# characters of a word
+LINEISH = ["a\u2028b", "\u2028", "\u2029x", "x\x85y", "\x85", "one\u2028two three"]
 PROTECTED = ["markup", "literalLayout", "objectName", "attributeName", "para"]
 PLAIN = ["title", "abstract", "section", "value", "emphasis", "dataset", "entityName", "x", "html", "HTML", "br", "meta", "p", "head", "script"]
 # (html / br / meta ...: names an XSLT processor treats specially when it guesses the output method from the root element)
@@ -48,7 +51,7 @@ def rws(rnd, allow_empty=True):
 def rtext(rnd):
     parts = [rws(rnd)]
     for _ in range(rnd.randint(0, 4)):
-        parts.append("".join(rnd.choice("abcXYZ09.,") for _ in range(rnd.randint(1, 6))) if rnd.random() < 0.8 else rnd.choice(ODD + MARKUPISH))
+        parts.append("".join(rnd.choice("abcXYZ09.,") for _ in range(rnd.randint(1, 6))) if rnd.random() < 0.8 else rnd.choice(ODD + LINEISH + MARKUPISH))
         parts.append(rws(rnd, allow_empty=False))
     if rnd.random() < 0.5 and len(parts) > 1:
         parts[-1] = rws(rnd)
@@ -136,6 +139,8 @@ SPECIAL_DOCS = [
     '<?xml version="1.0" encoding="utf-8" standalone="yes"?>\n<doc><markup> encoding="a"  encoding="b"</markup></doc>',
     '<doc encoding="UTF-8"><?xml-stylesheet href="a.xsl"?><title xml="1"> ?xml  version </title></doc>',
     '<?xml version="1.0"?>\n<!-- encoding="c" --><doc a=" encoding=&quot;q&quot; "> x </doc>',
+    '<doc a="p\u2028q"><title>one\u2028two  three\u2029</title><para>keep\u2028this  as\x85it is</para><x>\x85 y\u2028</x>tail\u2028 t</doc>',
+    '<doc><literalLayout>line\u2028sep  and\r\nCRLF</literalLayout><title>a\r\nb\rc</title></doc>',
 ]
 
 
